@@ -3,8 +3,8 @@
 (* types, empty members at every position, nesting to depth 3, ordinate tokens*)
 (* from several float classes (NaN payload and infinity only in Z / M).       *)
 EXTENDS WKB
-TokXY == <<"3ff0000000000000", "c008000000000000", "8000000000000000", "0000000000000001", "7fefffffffffffff", "3fb999999999999a">>
-TokZM == <<"7ff8000000000abc", "7ff0000000000000", "4000000000000000", "fff0000000000000">>
+TokXY == <<"400921fb54442d18", "c005bf0a8b145769", "8000000000000000", "0000000000000001", "7fefffffffffffff", "405edd2f1a9fbe77">>
+TokZM == <<"7ff8000000000abc", "7ff0000000000000", "40c81cd6c8b43958", "fff0000000000000">>
 P(ct,k) == [i \in 1..DimOf(ct) |-> IF i <= 2 THEN TokXY[((k + i) % 6) + 1] ELSE TokZM[((k + i) % 4) + 1]]
 Ring(ct,k) == <<P(ct,k), P(ct,k+1), P(ct,k+2), P(ct,k)>>
 G(t,ct,c) == [t |-> t, ct |-> ct, c |-> c]
